@@ -367,6 +367,9 @@ class Parallel:
                 worker_name = None
                 in_thread_results = None
 
+                # results may still be queued when the last worker is reaped: leave the loop only when
+                # a get() issued after the pool was already seen empty finds nothing
+                all_reaped = not pool
                 queue_empty = False
                 try:
                     worker_name, _, in_thread_results, exc = done_queue.get(True, 1)
@@ -419,7 +422,7 @@ class Parallel:
                         for result in self._run_callbacks(in_thread_result)
                     ]
 
-                if not pool:
+                if not pool and all_reaped and queue_empty:
                     break
 
                 for name in retired_workers:
